@@ -5,11 +5,15 @@ import MementoModel.Model.Runner
 -/
 namespace Memento.Runner
 
+/-- statements; `guard = (m, r)` with `m ≠ 0`: the statement runs only when `arg % m = r` (so
+    different arguments of one function can reach different callees) -/
 inductive Stmt
-  | call (g : Fn) (off : Int) (ctx : CtxSpec) (fl : Flags) (caught : Bool)
-  | batch (g : Fn) (offs : List Int) (ctx : CtxSpec) (fl : Flags) (raiseFirst : Bool)
+  | call (g : Fn) (off : Int) (ctx : CtxSpec) (fl : Flags) (caught : Bool) (guard : Nat × Nat)
+  | batch (g : Fn) (offs : List Int) (ctx : CtxSpec) (fl : Flags) (raiseFirst : Bool) (guard : Nat × Nat)
   | resource (h : Nat)
 deriving Repr
+
+def guardOk (guard : Nat × Nat) (a : Val) : Bool := guard.1 == 0 || (a ≥ 0 && a.toNat % guard.1 == guard.2)
 
 structure FnDef where
   stmts    : List Stmt
@@ -37,14 +41,16 @@ def sumSlots : List Outcome → Int
 def denoteStmts (d : FnDef) (a : Val) : List Stmt → Int → Body
   | [], acc => if raises d a then .ret (.exc d.cls d.msg) else .ret (.val (some (acc + d.const)))
   | .resource h :: rest, acc => .resource h (denoteStmts d a rest acc)
-  | .call g off ctx fl caught :: rest, acc =>
+  | .call g off ctx fl caught guard :: rest, acc =>
+    if !guardOk guard a then denoteStmts d a rest acc else
     .call g (a + off) ctx fl (fun o => match o with
       | .val (some v) => denoteStmts d a rest (acc + v)
       | .val none => denoteStmts d a rest acc
       | .exc c m =>
         -- a handler cannot tell an opaque exception from its replayed form (MementoException)
         if caught then denoteStmts d a rest (acc - 1000 - (if c = clsOpaque then clsMemento else c)) else .ret (.exc c m))
-  | .batch g offs ctx fl raiseFirst :: rest, acc =>
+  | .batch g offs ctx fl raiseFirst guard :: rest, acc =>
+    if !guardOk guard a then denoteStmts d a rest acc else
     .batch g (offs.map (a + ·)) ctx fl (fun r => match r with
       | .error e => .ret e                                        -- the batch call itself raised
       | .ok os =>
